@@ -93,6 +93,9 @@ class CommitMonitor:
         self.db = None
         self.fail_at = None  # (statement index) inject failure: callable(tx, query) -> exception or None
         self.history = []    # transaction records (light)
+        self.tx_log = []     # Transaction objects, in order (only when keep_tx is set)
+        self.keep_tx = False
+        self.check_rollback = False
         self.snapshot_reads = snapshot_reads
 
     # -- harness monitor protocol -------------------------------------------------------------
@@ -175,7 +178,24 @@ class CommitMonitor:
         if snap is not None:
             self.prev = snap
         self.history.append((tx.index, tx.task_name, tx.nstmt, tx.writes, tx.is_pop, tx.rolled_back))
+        if self.keep_tx:
+            self.tx_log.append(tx)
+        self.last_tx = tx
         self.tx = None
+
+    def after_exit(self, db, exc):
+        """Called right after the real `__aexit__` returned (no await in between, so no other task
+        ran): after a rollback, the tables must be exactly what the last commit left."""
+        if exc is None or not self.check_rollback or self.prev is None or db._con is None:
+            return
+        after = snapshot(db._con)
+        self.count("rollbacks_compared")
+        diff = [k for k in self.prev if self.prev[k] != after[k]]
+        if diff:
+            tx = getattr(self, "last_tx", None)
+            self.finding("rolled-back transaction left changes in the tables",
+                         f"tables {diff} differ after the rollback of transaction "
+                         f"{tx.index if tx else '?'} ({tx.task_name if tx else '?'}: {type(exc).__name__}: {exc})"[:600])
 
 
 def install():
@@ -204,7 +224,15 @@ def install():
             except BaseException:  # noqa: BLE001
                 import traceback
                 mon.finding("harness: monitor raised", traceback.format_exc()[-2000:])
-        return await orig_exit(self, exc_type, exc, tb)
+        try:
+            return await orig_exit(self, exc_type, exc, tb)
+        finally:
+            if mon is not None:
+                try:
+                    mon.after_exit(self, exc)
+                except BaseException:  # noqa: BLE001
+                    import traceback
+                    mon.finding("harness: monitor raised", traceback.format_exc()[-2000:])
 
     def run(self, query, args, *, many):
         mon = _MONITORS.get(id(self))
